@@ -50,7 +50,13 @@ def instances(tier):
                unwind=uw, default_unwind=cap + 3, no_models=True),
             mk("c19_reach_%s_cap%d" % (tag, cap), "C19/c19.c", units, D("MODE_REACH"),
                unwind=uw, default_unwind=cap + 2, no_models=True),
-            mk("c19_hist_%s_cap%d_n%d" % (tag, cap, nops), "C19/c19.c", units, D("MODE_HIST", NOPS=nops),
-               unwind={"harness": max(nops, cap + 2) + 2}, default_unwind=cap + 3, no_models=True),
         ]
+        # black-box histories: capacity is a compile-time constant here (symbolic capacity x 12 operations does
+        # not finish: measured > 20 min at CAP 8); every capacity 1..CAP gets its own instance
+        for c in range(1, cap + 1):
+            n = max(nops, c + 4)
+            x = {"MODE_HIST": None, "HIST_FIXED_CAP": None, "CAP": c, "NOPS": n}
+            x.update(d)
+            out.append(mk("c19_hist_%s_cap%d_n%d" % (tag, c, n), "C19/c19.c", units, x,
+                          unwind={"harness": max(n, c + 2) + 2}, default_unwind=c + 3, no_models=True))
     return out
